@@ -11,6 +11,8 @@ import (
 	"sort"
 	"strconv"
 	"strings"
+	"sync"
+	"sync/atomic"
 	"time"
 )
 
@@ -173,6 +175,10 @@ type probeResult struct {
 }
 
 func probe(env Env, ch *Check, c Case, tag string, budget time.Duration) probeResult {
+	return probeEnv(env, ch, c, tag, budget, nil)
+}
+
+func probeEnv(env Env, ch *Check, c Case, tag string, budget time.Duration, extraEnv []string) probeResult {
 	c.Pack()
 	data, _ := json.Marshal(&c)
 	cf := filepath.Join(env.Work, "probe-"+tag+".json")
@@ -185,7 +191,7 @@ func probe(env Env, ch *Check, c Case, tag string, budget time.Duration) probeRe
 	cmd := exec.CommandContext(ctx, env.Self, "probe", ch.ID, cf, of)
 	lg, _ := os.Create(lf)
 	cmd.Stdout, cmd.Stderr = lg, lg
-	cmd.Env = append(os.Environ(), "VERIF_WORKERS=1")
+	cmd.Env = append(append(os.Environ(), "VERIF_WORKERS=1"), extraEnv...)
 	err := cmd.Run()
 	lg.Close()
 	var res probeResult
@@ -230,10 +236,115 @@ func ProbeMain(ch *Check, caseFile, outFile string) int {
 	w := newWorker(r, 0)
 	w.gen = "probe"
 	w.noSpice = true
-	runWithHistory(ch, w, c)
+	if os.Getenv("VERIF_PROBE_CONCURRENT") != "" && ch.SpiceCall != nil {
+		runConcurrently(ch, r, c)
+	} else {
+		runWithHistory(ch, w, c)
+	}
 	r.merge(w)
 	r.writeReport(true)
 	return 0
+}
+
+// ColdStart is the child side of the cold-start probe: 16 goroutines are
+// released together and each makes the process's first calls into the public
+// entry point (history inputs k, k+1, ...). A table built lazily on first use
+// without synchronisation is written by several of them at once.
+func ColdStart(ch *Check, k int) int {
+	if ch == nil || ch.SpiceCall == nil || len(ch.Spice) == 0 {
+		return 0
+	}
+	start := make(chan struct{})
+	var wg sync.WaitGroup
+	for g := 0; g < 16; g++ {
+		wg.Add(1)
+		go func(g int) {
+			defer wg.Done()
+			<-start
+			for j := 0; j < 4; j++ {
+				func() {
+					defer func() { recover() }()
+					ch.SpiceCall(ch.Spice[(k*5+g+j)%len(ch.Spice)])
+				}()
+			}
+		}(g)
+	}
+	close(start)
+	wg.Wait()
+	return 0
+}
+
+// coldStartProbes runs a handful of cold-start children; a child killed by a
+// runtime concurrency fault inside library code is a confirmed violation.
+func coldStartProbes(env Env, ch *Check) []Violation {
+	if ch.SpiceCall == nil {
+		return nil
+	}
+	for k := 0; k < 6; k++ {
+		lf := filepath.Join(env.Work, fmt.Sprintf("coldstart-%d.log", k))
+		ctx, cancel := context.WithTimeout(context.Background(), 2*time.Minute)
+		cmd := exec.CommandContext(ctx, env.Self, "coldstart", ch.ID, strconv.Itoa(k))
+		lg, _ := os.Create(lf)
+		cmd.Stdout, cmd.Stderr = lg, lg
+		err := cmd.Run()
+		lg.Close()
+		cancel()
+		if err == nil {
+			continue
+		}
+		if msg, fn := libraryConcurrencyFatal(lf); msg != "" {
+			b, _ := os.ReadFile(lf)
+			if len(b) > 2000 {
+				b = b[:2000]
+			}
+			return []Violation{{Property: ch.ID, Kind: "fatal-concurrent", Confirmed: true,
+				Case:   Case{Desc: "first calls of a process from 16 goroutines at once; faulting library function: " + fn},
+				Detail: "a fresh process whose first library calls are made by 16 goroutines at the same moment was killed by the Go runtime: fatal error: " + msg + "\nfaulting goroutine was inside " + fn + "\n" + string(b)}}
+		}
+	}
+	return nil
+}
+
+// runConcurrently: eight goroutines; one keeps running the monitor on the
+// case, the others keep feeding the recorded predecessor inputs and the
+// check's history inputs to the public entry point. Bounded by rounds, not by
+// time. Used only after the lone and the history probe did not reproduce a
+// violation that the 16-goroutine runner observed.
+func runConcurrently(ch *Check, r *Run, c Case) {
+	var others []string
+	for _, q := range c.PredQ {
+		if s, err := strconv.Unquote(q); err == nil {
+			others = append(others, s)
+		}
+	}
+	others = append(others, ch.Spice...)
+	if len(others) == 0 {
+		others = []string{""}
+	}
+	var stop atomic.Bool
+	var wg sync.WaitGroup
+	for g := 0; g < 7; g++ {
+		wg.Add(1)
+		go func(g int) {
+			defer wg.Done()
+			for i := g; !stop.Load(); i++ {
+				func() {
+					defer func() { recover() }()
+					ch.SpiceCall(others[i%len(others)])
+					ch.SpiceCall(c.In)
+				}()
+			}
+		}(g)
+	}
+	w := newWorker(r, 1)
+	w.gen = "probe"
+	w.noSpice = true
+	for round := 0; round < 20000 && len(w.viols) == 0; round++ {
+		w.Do(c)
+	}
+	stop.Store(true)
+	wg.Wait()
+	r.merge(w)
 }
 
 // runWithHistory runs one case; when the case carries recorded predecessor
@@ -294,6 +405,7 @@ func Drive(ch *Check, tier string) int {
 	var confirmed []Violation
 	var inconcl []string
 	inconcl = append(inconcl, rep.Inconcl...)
+	confirmed = append(confirmed, coldStartProbes(env, ch)...)
 
 	tail := func() string {
 		b, _ := os.ReadFile(logf)
@@ -330,7 +442,7 @@ func Drive(ch *Check, tier string) int {
 	default:
 		// the runner died without a complete report: attribute through the journal
 		cands := ReadSlots(slots)
-		found := false
+		found := len(confirmed) > 0 // a cold-start probe already explained a concurrency death
 		for i, c := range cands {
 			pr := probe(env, ch, c, fmt.Sprintf("slot%d", i), CaseBudget(int64(len(c.In)+len(c.S)), 6))
 			switch {
@@ -416,6 +528,24 @@ func Drive(ch *Check, tier string) int {
 			if ok {
 				v.Kind += "-after-history"
 				v.Detail = "a lone call in a fresh process does not show this; it shows in a fresh process after the " + strconv.Itoa(len(v.Case.PredQ)) + " calls the worker had made just before (recorded in the replay file): the answer depends on earlier calls\n" + v.Detail
+			} else {
+				// neither alone nor after its predecessors: the runner made it while
+				// 15 other goroutines were inside the library. Probe once more in a
+				// fresh process with seven goroutines calling the public entry point
+				// concurrently (bounded by rounds).
+				pr = probeEnv(env, ch, v.Case, fmt.Sprintf("v%dc", len(seen)), budget, []string{"VERIF_PROBE_CONCURRENT=1"})
+				if pr.died && !pr.timedOut {
+					ok = true
+				}
+				for _, pv := range pr.viols {
+					if pv.Kind == v.Kind {
+						ok = true
+					}
+				}
+				if ok {
+					v.Kind += "-under-concurrency"
+					v.Detail = "neither a lone call nor the recorded call history shows this in a fresh process; it shows in a fresh process while seven other goroutines call the public entry point (the library is documented as safe for concurrent use)\n" + v.Detail + "\n" + trunc(pr.log, 600)
+				}
 			}
 		}
 		if ok {
@@ -577,6 +707,19 @@ func ReplayMain(lookup func(id string) *Check, path string) int {
 	}
 	w := newWorker(r, 0)
 	w.noSpice = true
+	if strings.HasSuffix(v.Kind, "-under-concurrency") && ch.SpiceCall != nil {
+		fmt.Println("the recorded violation showed only under concurrent calls; the case is run while seven goroutines call the public entry point (up to 20000 rounds)")
+		runConcurrently(ch, r, v.Case)
+		if len(r.rep.Violations) == 0 {
+			fmt.Println("NOT-REPRODUCED: the monitor accepts this case on the current tree")
+			return 0
+		}
+		for _, x := range r.rep.Violations {
+			fmt.Printf("REPRODUCED kind=%s\n%s\n", x.Kind, x.Detail)
+			break
+		}
+		return 1
+	}
 	if len(v.Case.PredQ) > 0 {
 		fmt.Printf("the recorded violation showed only after %d earlier calls by the same worker; they are made first (up to 50 rounds)\n", len(v.Case.PredQ))
 	}
